@@ -413,8 +413,9 @@ def c13(run):
     run.gen_replay("Gen_Format", gen_cfg(dict(Scope="mc", MaxConsts=1)), ["replay-format", "--cuts", "1"], "C13:spec-bytes")
     for mod, c, kw in prog_sources_small(run)[: (2 if run.quick else 3)]:
         run.gen_replay(mod, c, ["replay-format", "--cuts", "1"], "C13:" + c.split('"')[1], **kw)
-    if not run.quick:
-        run.gen_replay("Gen_Format", gen_cfg(dict(Scope="sizes", MaxConsts=1)), ["replay-format", "--cuts", "1"], "C13:sizes")
+    # the scaling-law programs (string constants, identifiers, code, line tables and offsets of 1 .. 67 824 bytes): all of them in the
+    # thorough tier, a seeded ninth of them in the quick one (of dumps over 6 kB the first and last 1 500 cuts and every 61st between)
+    run.gen_replay("Gen_Format", gen_cfg(dict(Scope="sizes", MaxConsts=1)), ["replay-format", "--cuts", "1"] + (["--cutsof", "9", "--seed", str(run.seed)] if run.quick else []), "C13:sizes")
     run.exhaustive = False
 
 
